@@ -101,6 +101,27 @@ CHECKS = {
        "general, or the codec libraries.",
   note="trusted: three reasoned exceptions in sa/props/c05.py; 'a pointer to struct T points to sizeof(T) bytes'",
   technique="static analysis: bounded-sink dataflow (linear forms + guard/provenance reasoning) on LLVM IR"),
+ "C07": dict(
+  text="Static rules for the untrusted-input front ends of tar2sqfs/gensquashfs: sizes decoded from the archive reach "
+       "record_to_memory/read_pax_header only below a constant implementation limit (provenance proof, through validating "
+       "helpers and parameters); strtol-derived PAX record length bounded above and below before it indexes the record; "
+       "every decoder call in read_header dominated by magic/version test and valid checksum; K6 bounded sinks over all "
+       "anchored parser units (three reasoned exceptions); codec wrappers re-enter their loop only on progress codes "
+       "(no endless loop on corrupted compressed input); PAX 'already set' mask zeroed whenever the decoded header is "
+       "wiped. Cleanup-after-failure and name canonicalisation are decided by C13/C18. Decides memory-safety sinks and "
+       "specific non-termination shapes; does not decide termination in general (hard-link cycles).",
+  note="trusted: libtar limit constant 65536; codec return-code tables; three K6 exceptions in sa/props/c07.py",
+  technique="static analysis: bounded-sink dataflow, dominance rules, finite branch evaluation over library return codes, typestate (mask/payload) on LLVM IR"),
+ "C15": dict(
+  text="Structural clauses of the stream-compression wrappers: K-codec (finite branch evaluation over the documented "
+       "return codes of zlib/liblzma/libbz2/libzstd: the wrapper loops again only on progress codes), K10-offsets "
+       "(*in_read/*out_written accumulate the codec's counters), K12-finish (FLUSH_FULL maps to the library finish "
+       "action), K1-trailer (flush finishes the codec stream, then the wrapped stream; sqfs2tar reports success only "
+       "after that), K2-codec-table. The property as a whole (equality of decoded streams, concatenated members, "
+       "truncation detection) is run-time behaviour of the codec libraries and is NOT decided; only these necessary "
+       "conditions are.",
+  note="trusted: API constants of the four codec libraries",
+  technique="static analysis: exhaustive branch evaluation over enumerated return codes + dominance/constant rules on LLVM IR"),
 }
 
 NA_DEFAULT = "rules designed in DESIGN.md, not implemented yet (work in progress)"
